@@ -92,3 +92,19 @@ Lemma ex_stack_holds :
   holds (model_case ex_f ex_steps false [ex_call; ex_bad_call]) = true /\
   holds (model_case ex_f [mkStep [] [] default_options 101; mkStep [] [] default_options 102] true [ex_call; ex_bad_call]) = true.
 Proof. split; vm_compute; reflexivity. Qed.
+
+(* whatever injected/expected do, a function that is built has a well-formed signature again
+   (ordered kinds, distinct names, no positional parameter without default behind a defaulted one) *)
+Theorem result_wellformed o gid f inj exp g :
+  wf_func f -> Forall (fun nd => fst nd <> 0) exp ->
+  update_wrapper_opt o gid f inj exp = Ok g ->
+  exists s, sig_of (b_func g) = Ok s /\ wf_params (sg_params s) = true /\
+            spec_wraps (func_sig f) inj exp = Ok s.
+Proof.
+  intros WF NZ E. pose proof (update_wrapper_opt_refines o gid f inj exp WF NZ) as R. rewrite E in R.
+  destruct (spec_wraps (func_sig f) inj exp) as [s|]; [|exfalso; exact R].
+  destruct R as [SG [_ [_ [_ [_ [_ [_ [_ [_ [[WFg _] _]]]]]]]]]].
+  exists s. split; [exact SG|]. split; [|reflexivity].
+  pose proof (sig_of_func_sig (b_func g) (wf_len _ WFg)) as X. rewrite SG in X.
+  assert (s = func_sig (b_func g)) by congruence. subst s. apply func_sig_wf. exact WFg.
+Qed.
